@@ -6,13 +6,13 @@ import common as C
 
 PID = "C13"
 DRIVER = [("C13", "TfPwaV.Model.LS", "LS.handle")]
-LEAN_TARGETS = ["TfPwaV.Props.C13"]
-PROP_MODULES = ["TfPwaV.Props.C13"]
-ALL_MODULES = ["TfPwaV.Model.LS", "TfPwaV.Props.C13"]
+LEAN_TARGETS = ["TfPwaV.Props.C13", "TfPwaV.Props.C13b"]
+PROP_MODULES = ["TfPwaV.Props.C13", "TfPwaV.Props.C13b"]
+ALL_MODULES = ["TfPwaV.Model.LS", "TfPwaV.Model.LSGram", "TfPwaV.Props.C13", "TfPwaV.Props.C13b"] + ["TfPwaV.Proofs.LSGram%d" % i for i in range(6)]
 ASSUMPTIONS = [
     "spins enter GetA2BC_LS_list as int (integer) or float k/2 (half-integer), as the config loader produces them",
     "parities/C-parities are +1/-1 or None",
-    "rank of the LS->helicity matrix is decided numerically (numpy SVD, tol 1e-9) on the real get_cg_matrix; the exact-arithmetic rank theorem covers the model's CG only where stated in Props/C13.lean",
+    "full column rank of the LS->helicity matrix is a theorem about the exact CG model (ls_gram_orthonormal: Gram matrix = identity for all spin triples with 2j<=5, kernel-evaluated rational arithmetic with the common surd factored out); the real get_cg_matrix is tied to it by the numeric rank / orthonormality check (numpy SVD, tol 1e-9) and by the C12 correspondence of cg_coef with the same CG model",
 ]
 
 
@@ -204,7 +204,7 @@ def replay(ctx, payload):
 
 
 MANIFEST = {
-    "text": "Lean theorems for ALL spins (unbounded): membership in the modelled (l,s) list <-> triangle/parity/C-parity rule (ls_mem_iff), strictly sorted hence duplicate-free (ls_sorted, ls_nodup), l_list restriction, cut criterion; kernel-decided count theorem (#couplings = #independent helicity amplitudes) on the whole 2j<=8 grid. The model is tied to GetA2BC_LS_list by exact comparison over the spin/parity grid on every run.",
-    "note": "Model = TfPwaV.LS.lsList (hand-written, doubled spins) validated against the real GetA2BC_LS_list on the grid 2j<=8 x parities x p_break x ca (quick: 2j<=5 + 12000 sampled rows; thorough: whole grid). Full rank of the LS->helicity matrix is checked numerically on the real get_cg_matrix (2j<=5 quick, <=6 thorough), not proved. Trusted: Lean kernel, standard axioms, harness.",
+    "text": "Lean theorems for ALL spins (unbounded): membership in the modelled (l,s) list <-> triangle/parity/C-parity rule (ls_mem_iff), strictly sorted hence duplicate-free (ls_sorted, ls_nodup), l_list restriction, cut criterion; kernel-decided count theorem (#couplings = #independent helicity amplitudes) on the whole 2j<=8 grid; exact orthonormality of the columns of the LS->helicity matrix, hence full rank, for all spin triples with 2j<=5 (ls_gram_orthonormal). The model is tied to GetA2BC_LS_list by exact comparison over the spin/parity grid on every run.",
+    "note": "Model = TfPwaV.LS.lsList (hand-written, doubled spins) validated against the real GetA2BC_LS_list on the grid 2j<=8 x parities x p_break x ca (quick: 2j<=5 + 12000 sampled rows; thorough: whole grid). Full rank is proved for the exact CG model (2j<=5) and re-checked numerically on the real get_cg_matrix (2j<=5 quick, <=6 thorough). Trusted: Lean kernel, standard axioms, harness.",
     "technique": "Lean 4 proof (unbounded membership/no-duplicate theorems, decide +kernel count over the full grid) + exhaustive grid correspondence with the implementation",
 }
